@@ -296,10 +296,15 @@ void body(Ctx &c, int id) {
                 if (id > 0) {
                     TRec &r = c.t[id];
                     int tag = (int)r.atexit_registered.size() + 1;
-                    r.atexit_registered.push_back(tag);
-                    r.atexit_pending.push_back(tag);
+                    // op.b: the very same (function, user data) pair is registered several times in a row - every registration counts
+                    int times = 1 + (int)(op.b % 4);
+                    if (times > 1) sim::probe("identical_at_exit_registration_repeated");
                     if (op.a) r.atexit_nesting.push_back(tag);
-                    if (aws_thread_current_at_exit(atexit_cb, (void *)(intptr_t)(id * 1000 + tag))) sim::violation("c20:atexit", "aws_thread_current_at_exit failed on an aws thread");
+                    for (int rep = 0; rep < times; rep++) {
+                        r.atexit_registered.push_back(tag);
+                        r.atexit_pending.push_back(tag);
+                        if (aws_thread_current_at_exit(atexit_cb, (void *)(intptr_t)(id * 1000 + tag))) sim::violation("c20:atexit", "aws_thread_current_at_exit failed on an aws thread");
+                    }
                     c.ops_done++;
                 }
                 break;
@@ -448,7 +453,7 @@ void gen(uint64_t seed, int tier, sim::Plan &p) {
         for (int k = 0; k < n; k++) {
             sim::Op o; o.thr = t;
             uint64_t w = r.below(10);
-            if (w < 3) { o.kind = OP_ATEXIT; o.a = r.chance(0.2); }
+            if (w < 3) { o.kind = OP_ATEXIT; o.a = r.chance(0.2); o.b = r.chance(0.15) ? r.range(1, 3) : 0; }
             else if (w < 6) { o.kind = OP_YIELD; }
             else if (w < 9) { o.kind = OP_SLEEP; o.a = r.pick(std::vector<int64_t>{1000, 100000, 1000000, 1000000, 50000000, 1000000000}); }
             else if (r.chance(0.5)) { o.kind = OP_COUNT_QUERY; }
@@ -512,7 +517,7 @@ std::string op_text(const sim::Op &op) {
         case OP_SET_TIMEOUT: snprintf(b, sizeof b, "main: set managed join timeout %lld ns", (long long)op.a); break;
         case OP_SLEEP: snprintf(b, sizeof b, "thread %d: sleep(%lld ns virtual)", op.thr, (long long)op.a); break;
         case OP_YIELD: snprintf(b, sizeof b, "thread %d: yield", op.thr); break;
-        case OP_ATEXIT: snprintf(b, sizeof b, "thread %d: aws_thread_current_at_exit(next tag)%s", op.thr, op.a ? " [its callback registers one more callback]" : ""); break;
+        case OP_ATEXIT: snprintf(b, sizeof b, "thread %d: aws_thread_current_at_exit(next tag)%s%s", op.thr, op.a ? " [its callback registers one more callback]" : "", op.b % 4 ? " [the identical registration is repeated]" : ""); break;
         case OP_ATEXIT_MAIN: snprintf(b, sizeof b, "main: aws_thread_current_at_exit (must be refused: not an aws thread)"); break;
         case OP_COUNT_QUERY: snprintf(b, sizeof b, "thread %d: aws_thread_get_managed_thread_count()", op.thr); break;
         case OP_CALL_ONCE: snprintf(b, sizeof b, "thread %d: aws_thread_call_once(flag %lld)%s", op.thr, (long long)(op.a % 3), op.b ? " [the function registers an at-exit callback]" : ""); break;
